@@ -237,7 +237,7 @@ fn main() {
             let mut jsons: Vec<Vec<serde_json::Value>> = Vec::new();
             for sh in 0..shards {
                 let mut f = fs::File::create(format!("{}/meta_{}.v", out, sh)).unwrap();
-                writeln!(f, "From Coq Require Import String.\nFrom Coq Require Import List NArith ZArith.\nFrom Cambrian Require Import Check.MetaCheck.\nImport ListNotations.\nSet Printing Width 100000.\nSet Printing Depth 100000.").unwrap();
+                writeln!(f, "From Coq Require Import String.\nFrom Coq Require Import List NArith ZArith.\nFrom Cambrian Require Import Termination Check.MetaCheck.\nImport ListNotations.\nSet Printing Width 100000.\nSet Printing Depth 100000.").unwrap();
                 vfiles.push(f);
                 jsons.push(Vec::new());
             }
